@@ -11,6 +11,7 @@ import (
 	"fmt"
 	"os"
 	"reflect"
+	"strconv"
 	"sync"
 )
 
@@ -107,7 +108,7 @@ func vAssert(c bool, label string) {
 
 func vCover(label string, c bool) {}
 func vReach()                     {}
-func vTier() int                  { return 0 }
+func vTier() int                  { n, _ := strconv.Atoi(os.Getenv("VERIF_TIER")); return n }
 func vConfig(key string, val int) {}
 func vAllocLimit(n int)           {}
 func vNote(s string)              {}
